@@ -17,7 +17,7 @@ ASSUMPTIONS = ["mazes obey the boundary rule (no connection leaves the grid)", "
 EXHAUSTIVE = {"quick": False, "thorough": False}
 NSHARDS = {"quick": 16, "thorough": 16}
 THRESHOLDS = {
-    "quick": {"c02:unreachable-raised": 1000, "c02:multi-route-pairs": 1000, "c02:adv-mazes": 100, "c02:self-query": 100,
+    "quick": {"repotests:ambient:solver:return": 50, "c02:unreachable-raised": 1000, "c02:multi-route-pairs": 1000, "c02:adv-mazes": 100, "c02:self-query": 100,
               "c02:exh-structures": 6541, "c02:from-targeted": 50, "ambient:solver:return": 20, "c02:array-args": 100,
               "hits:find_shortest_path": 1000},
 }
@@ -41,6 +41,10 @@ def _solve(ctx, maze, g, s, e, case, cache, as_array=False):
 
 
 def run(ctx):
+    if ctx.shard == ctx.nshards - 1:
+        from ..repotests import run_under_monitors
+
+        run_under_monitors(ctx)
     # ---- (1) exhaustive small grids ---------------------------------------
     k = 0
     for (R, C) in ref.EXH_SHAPES:
